@@ -40,6 +40,8 @@ pub enum Sink {
     Mut(Box<Sink>),
     Lazy(usize, usize, Box<Sink>),
     LazyDown(usize, Box<Sink>),
+    /// pattern items only: the call is Iterator::nth(k) / nth_back(k), the yielded item goes to the inner sink
+    Nth(usize, Box<Sink>),
 }
 #[derive(Clone, Copy, Debug, PartialEq)]
 pub enum Bound {
@@ -75,7 +77,7 @@ pub enum Op {
     At(Api, usize, usize),
     Iter(IterKind, usize, Vec<bool>),
     Drain(Api, usize, Bound, Bound, Vec<(bool, Sink)>, bool),
-    Splice(Api, usize, Bound, Bound, Vec<(bool, Sink)>, bool, RKind, usize, Option<usize>, usize),
+    Splice(Api, usize, Bound, Bound, Vec<(bool, Sink)>, bool, RKind, usize, Option<usize>, (usize, usize)),
     Clone(usize, usize),
     CloneEmpty(usize, usize),
     CloneEmptyIn(usize, usize, Bk),
@@ -217,7 +219,24 @@ fn parse_pat(s: &str) -> Vec<(bool, Sink)> {
     if s == "-" {
         return vec![];
     }
-    s.split(',').map(|it| (&it[..1] == "F", parse_sink(&it[1..]))).collect()
+    s.split(',').map(|it| {
+        let front = &it[..1] == "F";
+        let rest = &it[1..];
+        // F<k>~<sink>: nth(k) / nth_back(k)
+        if let Some(p) = rest.find('~') {
+            if p > 0 && rest[..p].bytes().all(|b| b.is_ascii_digit()) {
+                return (front, Sink::Nth(u(&rest[..p]), Box::new(parse_sink(&rest[p + 1..]))));
+            }
+        }
+        (front, parse_sink(rest))
+    }).collect()
+}
+/// `A` or `A/B`: the replacement iterator answers A to the first len() / size_hint() question and B to every later one
+fn parse_claim(s: &str) -> (usize, usize) {
+    match s.split_once('/') {
+        Some((a, b)) => (u(a), u(b)),
+        None => (u(s), u(s)),
+    }
 }
 fn parse_ik(s: &str) -> IterKind {
     match s {
@@ -256,7 +275,7 @@ pub fn parse_op(t: &[&str]) -> Op {
             parse_api(a), u(v), parse_bound(sb), parse_bound(eb), parse_pat(p), *f == "drop"),
         ["splice", a, v, sb, eb, p, f, rk, n, w, cl] => Op::Splice(
             parse_api(a), u(v), parse_bound(sb), parse_bound(eb), parse_pat(p), *f == "drop",
-            parse_rk(rk), u(n), if *w == "-" { None } else { Some(u(w)) }, u(cl)),
+            parse_rk(rk), u(n), if *w == "-" { None } else { Some(u(w)) }, parse_claim(cl)),
         ["clone", v, d] => Op::Clone(u(v), u(d)),
         ["clone_empty", v, d] => Op::CloneEmpty(u(v), u(d)),
         ["clone_empty_in", v, d, bk] => Op::CloneEmptyIn(u(v), u(d), parse_bk(bk)),
